@@ -33,6 +33,46 @@ enum Step {
     Sleep(u64),
 }
 
+type ErasedEmitter = Box<dyn emit::emitter::ErasedEmitter + Send + Sync>;
+
+/// The emitter installed in a (private) runtime slot the way an application does it: `emit::setup().emit_to(..)
+/// .init_slot(..)`. Events are emitted through the slot's runtime, flushes go through the `Init` handle, and dropping
+/// this value drops the handle and then the slot (and with it the emitter).
+struct ViaInit<C: emit::Ctxt + 'static> {
+    init: Option<emit::setup::Init<'static, ErasedEmitter, C>>,
+    slot: *mut emit::runtime::AmbientSlot,
+}
+
+// the raw pointer is only touched in `drop`
+unsafe impl<C: emit::Ctxt + 'static> Send for ViaInit<C> where emit::setup::Init<'static, ErasedEmitter, C>: Send {}
+unsafe impl<C: emit::Ctxt + 'static> Sync for ViaInit<C> where emit::setup::Init<'static, ErasedEmitter, C>: Sync {}
+
+impl<C: emit::Ctxt + 'static> emit::Emitter for ViaInit<C> {
+    fn emit<E: emit::event::ToEvent>(&self, evt: E) {
+        self.init.as_ref().unwrap().get().emit(evt)
+    }
+
+    fn blocking_flush(&self, timeout: Duration) -> bool {
+        self.init.as_ref().unwrap().blocking_flush(timeout)
+    }
+}
+
+impl<C: emit::Ctxt + 'static> Drop for ViaInit<C> {
+    fn drop(&mut self) {
+        self.init.take();
+        // SAFETY: made by `Box::into_raw` in `via_init`; the only borrower (the handle) is gone
+        unsafe { drop(Box::from_raw(self.slot)) };
+    }
+}
+
+fn via_init(inner: ErasedEmitter) -> ErasedEmitter {
+    let slot: *mut emit::runtime::AmbientSlot = Box::into_raw(Box::new(emit::runtime::AmbientSlot::new()));
+    // SAFETY: the slot lives until `ViaInit::drop`, which drops the handle first
+    let slot_ref: &'static emit::runtime::AmbientSlot = unsafe { &*slot };
+    let init = emit::setup().emit_to(inner).init_slot(slot_ref);
+    Box::new(ViaInit { init: Some(init), slot })
+}
+
 fn markers_in(data: &[u8]) -> Vec<String> {
     let mut out = Vec::new();
     let mut i = 0;
@@ -82,8 +122,9 @@ impl Engine for FileE2e {
         let fault_budget = if overflow { 0 } else { fault_budget };
         let reuse = ch.chance(1, 2);
         let writer_kind = if overflow { 0 } else { ch.weighted(&[5, 2, 2, 2, 2, 2]) };
-        // how the application holds the emitter: 0 as is, 1 Arc, 2 Option, 3 Wrap, 4/5 And with Empty on either side (And splits the timeout)
-        let holder = ch.weighted(&[4, 1, 1, 1, 1, 1]);
+        // how the application holds the emitter: 0 as is, 1 Arc, 2 Option, 3 Wrap, 4/5 And with Empty on either side (And splits the timeout),
+        // 6 installed in a runtime slot through `emit::setup()`: events go through the slot's runtime, flushes through the `Init` handle
+        let holder = ch.weighted(&[4, 1, 1, 1, 1, 1, 2]);
         let max_size = *ch.pick(&[1usize << 30, 300, 120]);
         // (overflow mode: one big file, so retention never deletes what the oracle looks for)
         let max_size = if overflow { 1usize << 30 } else { max_size };
@@ -298,7 +339,8 @@ impl Engine for FileE2e {
                                 emit::emitter::wrapping::from_filter(emit::filter::from_fn(|_| true)),
                             )),
                             4 => Box::new(emit::Empty.and_to(inner)),
-                            _ => Box::new(inner.and_to(emit::Empty)),
+                            5 => Box::new(inner.and_to(emit::Empty)),
+                            _ => via_init(inner),
                         };
                         let mut emitted = 0usize;
                         let mut do_flush = |emitted: usize, ms: u64| {
